@@ -65,6 +65,8 @@ def seeded_table():
         cells = ["%s: %s (%.0f s)" % (c, "caught" if r["caught"] else "missed", r["seconds"]) for c, r in sorted(res.items())]
         need = m.get("needs_to_manifest", "")
         need = need if len(need) < 260 else need[:257] + "..."
+        if m.get("obsolete"):
+            cells.append("(obsolete on the current tree: " + m["obsolete"][:160].replace("|", "/") + "...)")
         rows.append("| %s | %s | %s | %s |" % (name, m.get("property"), need.replace("|", "/").replace("\n", " "), "; ".join(cells) or "not run yet"))
     return "\n".join(rows)
 
